@@ -45,7 +45,8 @@ RULE = ("exhaustive: the whole (offer x offer-accept x response-accept) lattice 
         "(server PMCE, client PMCE) effective-parameter pair (deflate 7056, bzip2 2025 [sampled in quick], brotli 9) "
         "driven with interleaved 12-14 message sequences per direction (empty, 1 octet, repeated text, random, large "
         "compressible, window ladder 2^9..2^14, all octets; 'heavy' = 64 KiB random + 128 KiB text, 'huge' = 1 MiB) "
-        "with rotating zlib memory levels and frame/fragment chunkings; generated: seed-derived sample of pairs "
+        "with rotating zlib memory levels (thorough: all 16 combinations of {default,1,4,9} per pair, plus a heavy sequence per pair) "
+        "and frame/fragment chunkings; generated: seed-derived sample of pairs "
         "(thorough: all) through real client<->server handshakes in Twisted and asyncio with random send API, "
         "fragmentation, doNotCompress and stream segmentation; catalogue + seed-derived hostile responses / offers; "
         "RSV1 variants x role x extension x segmentation x failByDrop. A case is non-trivial when its deciding "
@@ -76,6 +77,7 @@ DECIDING = {
 
 EXTS = (CC.DEFLATE, CC.BZIP2, CC.BROTLI)
 MEMS = (None, 1, 9)
+MEMS_THOROUGH = (None, 1, 4, 9)
 
 
 # =====================================================================================================
@@ -97,7 +99,7 @@ def object_cases(tier, seed):
                 if tier == "quick":
                     mems = [(rng.choice(MEMS), rng.choice(MEMS))]
                 else:
-                    mems = [(a, b) for a in MEMS for b in MEMS]
+                    mems = [(a, b) for a in MEMS_THOROUGH for b in MEMS_THOROUGH]
                 for sm, cm in mems:
                     cases.append({"fam": "objects", "ext": ext, "cfg": _cfgj(CC.with_mem(ext, pairs[k], sm, cm)),
                                   "scale": "light", "seed": seed})
@@ -357,14 +359,15 @@ def shards(tier, seed):
     out = []
     n_obj = 8 if tier == "quick" else 16
     for i in range(n_obj):
-        out.append({"name": "objects-%d" % i, "fw": None, "timeout": 3000,
+        out.append({"name": "objects-%d" % i, "fw": None, "timeout": 3000 if tier == "quick" else 7200,
                     "params": {"kind": "objects", "tier": tier, "seed": seed, "part": i, "parts": n_obj}})
     n_wire = 4 if tier == "quick" else 12
     for nvx in ([True] if tier == "quick" else [True, False]):
         env = _nvx_env(nvx)
         for fw in ("tx", "aio"):
             for i in range(n_wire):
-                out.append({"name": "%s-%s-%d" % (fw, "nvx" if nvx else "pure", i), "fw": fw, "env": env, "timeout": 3000,
+                out.append({"name": "%s-%s-%d" % (fw, "nvx" if nvx else "pure", i), "fw": fw, "env": env,
+                            "timeout": 3000 if tier == "quick" else 7200,
                             "params": {"kind": "wire", "tier": tier, "seed": seed, "part": i, "parts": n_wire, "nvx": nvx}})
     return out
 
